@@ -94,3 +94,46 @@ Example C04_example :
   map mo_n (snd (mux_run (new_muxer 2) ex_ops)) = [0; 0; 0; 940; 188; 3572; 0; 0; 0; 564; 0; 0; 0; 188; 376] /\
   map (fun o => Z.of_nat (length (mout_bytes o))) (snd (mux_run (new_muxer 2) ex_ops)) = [0; 0; 0; 940; 188; 3572; 0; 0; 0; 564; 0; 0; 0; 188; 376].
 Proof. vm_compute. split; reflexivity. Qed.
+
+(* ---- the table functions ARE the source ----
+   Gen/MuxGen.v is translated from the current /repo/muxer.go on every run (go/gen/muxgen*.go): generatePAT,
+   generatePMT and WriteTables statement by statement, with the byte producers writePSIData / writePacket as
+   parameters (instantiated here with their models). generate_pat / generate_pmt / write_tables of the theorems
+   above are those regenerated functions: version bump iff updated, continuity counter increment, PCR PID and size
+   checks, which buffer is written when, what is handed to the io.Writer and what is counted. A PMT cache that
+   skips the regeneration, another size bound or a changed write order breaks these proofs. *)
+Require Import Gen.MuxGen Model.Desc Proofs.MuxGenEq.
+
+Theorem C04_pat_is_source : forall s pb buf,
+  generate_pat s =
+  let '(pmu, patv, patcc, pbytes, buf', e) :=
+    Muxer_generatePAT to_pat g_wpsi g_wpkt C_MpegTsPacketSize mux_pm (ms_pm_updated s) (ms_pat_version s) (ms_pat_cc s) pb buf in
+  (set_tables s patv (ms_pmt_version s) patcc (ms_pmt_cc s) pmu (ms_pmt_updated s),
+   table_res e (table_packet C_PIDPAT (wrappingCounter_inc (ms_pat_cc s)) buf', pbytes)).
+Proof. exact generate_pat_of_generated. Qed.
+Print Assumptions C04_pat_is_source.
+
+Theorem C04_pmt_is_source : forall s mb buf,
+  generate_pmt s =
+  let '(pmtu, pmtv, pmtcc, mbytes, buf', e) :=
+    Muxer_generatePMT calc_descriptor_length calc_pmt_section_length g_wpsi g_wpkt C_MpegTsPacketSize
+      (pmt_of s) (ms_pmt_updated s) (ms_pmt_version s) (ms_pmt_cc s) mb buf in
+  (set_tables s (ms_pat_version s) pmtv (ms_pat_cc s) pmtcc (ms_pm_updated s) pmtu,
+   table_res e (table_packet C_pmtStartPID (wrappingCounter_inc (ms_pmt_cc s)) buf', mbytes)).
+Proof. exact generate_pmt_of_generated. Qed.
+Print Assumptions C04_pmt_is_source.
+
+Theorem C04_tables_is_source : forall s pb mb buf, pa_res (snd (write_tables s)) <> Panic ->
+  let '(w, pmu, pmtu, patv, pmtv, patcc, pmtcc, _, _, _, n, e) :=
+    Muxer_WriteTables calc_descriptor_length calc_pmt_section_length g_write to_pat g_wpsi g_wpkt
+      (@nil (list Z)) C_MpegTsPacketSize mux_pm (ms_pm_updated s) (pmt_of s) (ms_pmt_updated s)
+      (ms_pat_version s) (ms_pmt_version s) (ms_pat_cc s) (ms_pmt_cc s) pb mb buf in
+  fst (write_tables s) = set_tables s patv pmtv patcc pmtcc pmu pmtu /\
+  mout_of_part (snd (write_tables s)) = mk_mout (terr_res e) n (groups_of w).
+Proof. exact write_tables_of_generated. Qed.
+Print Assumptions C04_tables_is_source.
+
+(* the program map NewMuxer builds is the one generatePAT turns into the PAT {programNumberStart -> pmtStartPID} *)
+Theorem C04_pat_data_is_source : to_pat mux_pm = pat_data.
+Proof. exact to_pat_mux_pm. Qed.
+Print Assumptions C04_pat_data_is_source.
